@@ -31,6 +31,7 @@ ATTR = [
  ("fix: Repeat::again() underflowed", ["C16"]),
  ("fix: FileSource with Repeat::finite(0)", ["C16"]),
  ("fix: SigMFSource emitted the data with Repeat::finite(0)", ["C16", "C15"]),
+ ("fix: derive(Block) sync mode did not compile", ["C19"]),
 ]
 log = subprocess.run(["git", "-C", "/repo", "log", "--reverse", "--format=%h\t%s", "--grep", "^fix:"],
                      capture_output=True, text=True).stdout.strip().splitlines()
